@@ -279,8 +279,44 @@ def uw3(P, C):
                  "for long keys it wraps around and any value length is then accepted" % (f.render(i), R))
 
 
+def ks1(P, C):
+    C.rule("KS-1", "write_key applies the standard-keyword syntax rules to exactly the keys of at most 8 characters (the FITS keyword length) with "
+           "68 characters for the value, and the HIERARCH rules and the shorter value limit to longer keys", floor=4)
+    for f in [g for g in P.fns("write_key") if g.cls == ts.CLS and g.unit == "driver"]:
+        name = ts.fshort(f)
+        env = {}
+        at = vg.atomizer(f, ())
+        for i in f.walk():
+            if f.k(i) == "DeclStmt":
+                for d in f.nodes[i]["decls"]:
+                    if d.get("dk") == "Var" and d.get("init", -1) >= 0 and any(
+                            cal and cal["name"] == "strlen" for _x, cal in f.calls(d["init"])):
+                        env[d["id"]] = core.poly(f, d["init"], at)      # keylen := strlen(key) + 1, whatever it is called
+        branch = None
+        for i in f.walk():
+            if f.k(i) == "IfStmt" and any(cal and cal["name"] == "isupper" for _x, cal in f.calls(f.nodes[i]["then"])):
+                branch = i
+                break
+        ok = False
+        det = "no branch applying the standard-keyword character rules"
+        if branch is not None:
+            c, neg = core.cond_polarity(f, f.nodes[branch]["cond"])
+            n = f.nodes[c]
+            if n["k"] == "BinaryOperator" and n["op"] in ("<", "<=", ">", ">=") and not neg:
+                a, b = core.poly(f, n["ch"][0], at, env), core.poly(f, n["ch"][1], at, env)
+                one = Poly.const(1)
+                G = {"<": a - b, "<=": a - b - one, ">": b - a, ">=": b - a - one}[n["op"]]     # branch taken iff G < 0
+                want = Poly.atom("strlen($0)") - Poly.const(9)
+                ok = G == want
+                det = "standard-keyword branch taken iff %r < 0 (required strlen(key) - 9 < 0, i.e. at most 8 characters)" % G
+        C.ob("KS-1", name, "short-key-boundary", ok, f.loc(branch) if branch is not None else f.where(), det)
+        init = [f.nodes[d["init"]].get("cv") for i in f.walk() if f.k(i) == "DeclStmt" for d in f.nodes[i]["decls"] if d.get("name") == "maxdatalen" and d.get("init", -1) >= 0]
+        C.ob("KS-1", name, "short-key-value-limit", init == [68], f.where(), "a standard card leaves 68 characters for a string value: %s" % init)
+
+
 def run(P, C):
     api1(P, C)
+    ks1(P, C)
     ts1w(P, C)
     fs4(P, C)
     fs5(P, C)
